@@ -1,6 +1,7 @@
 """C06 - zoned arithmetic is DST-aware (composition only, rule PIPELINE)."""
 from .. import mir
 from ..term import Terms, show, alts, match, V, C, TRY, ok_payloads, is_call
+from ..rules_dep import run_dep
 
 SELF = ("param", 1, "self")
 
@@ -12,6 +13,7 @@ def closure_returns(prog, f, n=0):
 
 
 def run(ctx, rep):
+    run_dep(ctx, rep, "C06")
     prog = ctx.prog("Q")
     rep.notes.append("Does not decide that each step computes the right value, nor the 23/25-hour-day behaviour that emerges.")
     rep.rule("PIPELINE", "Zoned::checked_add_span is, on the non-shortcut Ok path, exactly: c = span.only_calendar(); "
